@@ -48,6 +48,22 @@ def t_metadata(rng, L, h):
     return h + 8
 
 
+def t_frozen_add(rng, L, h):
+    """column addition copies its input also when the input is already immutable (frozen by the caller, or a head
+    that lives inside another table metadata): releasing the input afterwards must not touch the result"""
+    ty = rng.choice(ALLTYPES)
+    m, tmd, t, t2, al = h, h + 1, h, h + 1, h + 2
+    L += ["mdnew %d" % m, "cmset %d %s %d" % (m, name_hex(b"frozen"), ty), "mdaddint %d %s 1 2" % (m, name_hex(b"x")), "mdfreeze %d" % m,
+          "mdnew %d" % tmd, "mdaddstr %d %s 76 ~" % (tmd, name_hex(b"t")), "tmnew %d %d" % (t, tmd),
+          "tmadd %d %d" % (t, m), "tmdump %d" % t, "mddel %d" % m, "tmdump %d" % t,
+          "tmmd %d %d 0" % (al, t), "cmname %d" % al, "mddump %d" % al,
+          "tmnew %d %d" % (t2, tmd), "tmadd %d %d" % (t2, al), "tmdump %d" % t2]
+    if rng.random() < 0.7:
+        L += ["tmdel %d" % t, "tmdump %d" % t2, "tmmd %d %d 0" % (al + 1, t2), "cmname %d" % (al + 1), "cmtype %d" % (al + 1)]
+    if rng.random() < 0.5: L += ["tmdel %d" % t2]
+    return h + 5
+
+
 def t_slices(rng, L, h):
     """caller-built slices do not own their arrays; reader-built ones do"""
     ty = rng.choice(ALLTYPES); rows = rng.choice([0, 1, 4, 9])
@@ -133,5 +149,5 @@ def cases(rng, tier):
     for i in range(n):
         L = []; h = 1
         for _ in range(rng.choice([1, 2, 3])):
-            h = rng.choice([t_values, t_metadata, t_slices, t_failed_read])(rng, L, h)
+            h = rng.choice([t_values, t_metadata, t_slices, t_failed_read, t_frozen_add])(rng, L, h)
         yield Case("h%d" % i, L, meta={"dist": {"steps": len(L) // 20 * 20}})
